@@ -157,6 +157,10 @@ class C06(object):
             # peaks without a usable g-vector (NaN from a failed correction, inf from a division by zero): within no tolerance
             for _ in range(rnd.randint(1, 3)):
                 gv[rnd.randrange(len(gv)), rnd.randrange(3) if rnd.random() < 0.7 else slice(None)] = rnd.choice([float("nan"), float("inf"), float("-inf")])
+        if sel == "normal" and len(gv) and rnd.random() < 0.1:
+            # zero g-vectors (padding rows, a direct-beam leak): hkl = 000, within every tolerance
+            for _ in range(rnd.randint(1, 3)):
+                gv[rnd.randrange(len(gv))] = 0.0
         gv = np.ascontiguousarray(gv)
         dyadic = sel == "normal" and np.isfinite(gv).all() and kern != "refine_assigned" and rnd.random() < 0.12
         if dyadic:
